@@ -14,10 +14,11 @@ import (
 )
 
 type vfScenario struct {
-	Name  string
-	Cfg   vfCfg
-	Tops  []string
-	Specs []vfFileSpec
+	Name   string
+	Cfg    vfCfg
+	Tops   []string
+	Specs  []vfFileSpec
+	Resume int // > 0: the destination already holds the first Resume bytes of every source file (overwrite/resume)
 }
 
 func vfFaultScenarios() []vfScenario {
@@ -28,7 +29,7 @@ func vfFaultScenarios() []vfScenario {
 	add := func(name string, cfg vfCfg, tops []string, specs []vfFileSpec) {
 		cfg.Timeout = 2
 		cfg.Quiet = true
-		sc = append(sc, vfScenario{name, cfg, tops, specs})
+		sc = append(sc, vfScenario{Name: name, Cfg: cfg, Tops: tops, Specs: specs})
 	}
 	add("down-p4-b64", vfCfg{Dir: "down", Direct: true}, []string{"one.bin"}, one)
 	add("up-p4-b64", vfCfg{Dir: "up", Direct: true}, []string{"one.bin"}, one)
@@ -42,6 +43,13 @@ func vfFaultScenarios() []vfScenario {
 	add("down-p4-dir-archive", vfCfg{Dir: "down", Directory: true, Direct: true}, []string{"d"}, dir)
 	add("up-p4-dir-overwrite", vfCfg{Dir: "up", Directory: true, Overwrite: true, Direct: true}, []string{"d"}, dir)
 	add("up-p3-dir", vfCfg{Dir: "up", Directory: true, Protocol: 3, Direct: true, Binary: true}, []string{"d"}, dir)
+	// resume scenarios: the hash exchange of protocol 3/4 happens (destination holds a matching prefix)
+	add("down-p4-resume", vfCfg{Dir: "down", Overwrite: true, Direct: true, Compress: 2}, []string{"one.bin"}, one)
+	sc[len(sc)-1].Resume = 2000
+	add("up-p3-resume-bin", vfCfg{Dir: "up", Protocol: 3, Overwrite: true, Binary: true, Direct: true}, []string{"a.txt", "b.bin"}, two)
+	sc[len(sc)-1].Resume = 500
+	add("up-p4-resume", vfCfg{Dir: "up", Overwrite: true, Direct: true}, []string{"one.bin"}, one)
+	sc[len(sc)-1].Resume = 2999
 	add("down-p4-filter", vfCfg{Dir: "down"}, []string{"a.txt", "b.bin"}, two)
 	add("up-p4-filter-bin", vfCfg{Dir: "up", Binary: true}, []string{"one.bin"}, one)
 	return sc
@@ -91,6 +99,11 @@ func vfRunScenario(c *vfCtx, sc vfScenario, tag string, setup func(s *vfSession)
 	var paths []string
 	for _, t := range sc.Tops {
 		paths = append(paths, filepath.Join(src, t))
+		if sc.Resume > 0 {
+			if b, err := os.ReadFile(filepath.Join(src, t)); err == nil && len(b) > sc.Resume {
+				os.WriteFile(filepath.Join(dst, t), b[:sc.Resume], 0644)
+			}
+		}
 	}
 	res := &vfRunResult{}
 	s, so, co, fin := vfRunTransfer(c, sc.Cfg, paths, dst, bound, func(s *vfSession) {
@@ -214,7 +227,30 @@ func TestVF_C02(t *testing.T) {
 					nf = 2 + r.Intn(2)
 				}
 				plan := vfFaultPlan{Dir: dir}
-				if k%2 == 0 {
+				if sc.Resume > 0 && k%4 == 1 {
+					// resume scenarios: damage one of the first acknowledgement lines (NUM echo, target-file reply,
+					// prefix-hash acks) of the receiving side
+					dir = "c2s"
+					msgs, total = base.c2s, base.c2sLen
+					if sc.Cfg.Dir == "up" {
+						dir = "s2c"
+						msgs, total = base.s2c, base.s2cLen
+					}
+					plan.Dir = dir
+					var succ []vfMsg
+					for _, m := range msgs {
+						if m.Type == "SUCC" && m.End-m.Start > 8 {
+							succ = append(succ, m)
+						}
+					}
+					if len(succ) > 1 {
+						m := succ[vfMin(len(succ)-1, 1+(k/4)%4)]
+						off := m.Start + 6 + int64(r.Intn(int(m.End-m.Start-7)))
+						plan.Faults = append(plan.Faults, vfFault{Off: off, Kind: "flip", Arg: r.Intn(8)})
+						plan.Phase = "SUCC-early-ack"
+						nf = 0
+					}
+				} else if k%2 == 0 {
 					// payload faults: one bit of one payload byte of a DATA message in the data direction
 					dir = "s2c"
 					msgs, total = base.s2c, base.s2cLen
@@ -330,7 +366,7 @@ func TestVF_C02(t *testing.T) {
 						c.rec.St, c.rec.VSig, c.rec.Msg = "ok", "", ""
 						c.mu.Unlock()
 						c.Obs("pre_handshake_stalls", 1)
-						if d := vfSnapshot(filepath.Join(c.Dir, "dst-fault")); len(d) != 0 {
+						if d := vfSnapshot(filepath.Join(c.Dir, "dst-fault")); len(d) != 0 && sc.Resume == 0 {
 							c.Viol("c02-prehandshake-wrote", "the handshake never began, yet the destination holds %d entries", len(d))
 						}
 					}
